@@ -108,6 +108,7 @@ enum DoGap {
 }
 
 #[derive(Debug, PartialEq, Eq)]
+#[cfg_attr(feature = "verif-hooks", derive(Clone))]
 enum State {
     Offline,
     PassiveIdle,
@@ -384,6 +385,7 @@ impl State {
 }
 
 #[derive(Debug)]
+#[cfg_attr(feature = "verif-hooks", derive(Clone))]
 pub struct FdlActiveStation {
     /// Parameters for the connected bus and this station
     p: crate::fdl::Parameters,
@@ -1510,6 +1512,73 @@ impl FdlActiveStation {
             State::ActiveIdle { .. } => self.do_active_idle(now, phy).into(),
             State::AwaitStatusResponse { .. } => self.do_await_status_response(now, phy).into(),
             s => todo!("Active station state {s:?} not implemented yet!"),
+        }
+    }
+}
+
+/// Read-only view of the internal state for the external verification harness.
+///
+/// Only used for canonical state fingerprints (deduplication); no oracle depends on it.
+#[cfg(feature = "verif-hooks")]
+#[derive(Debug, Clone, PartialEq, Eq)]
+pub struct VerifFdlView {
+    /// `Debug` rendering of the state with the token time removed
+    pub state: std::string::String,
+    /// Name of the state variant
+    pub state_name: &'static str,
+    pub have_token: bool,
+    pub token_time: Option<crate::time::Instant>,
+    pub gap_state: std::string::String,
+    pub connectivity_state: ConnectivityState,
+    pub last_bus_activity: Option<crate::time::Instant>,
+    pub pending_bytes: usize,
+    pub last_token_time: crate::time::Instant,
+    pub end_token_hold_time: crate::time::Instant,
+    pub next_application: usize,
+}
+
+#[cfg(feature = "verif-hooks")]
+impl FdlActiveStation {
+    pub fn verif_view(&self) -> VerifFdlView {
+        let (state_name, token_time, state) = match &self.state {
+            State::Offline => ("Offline", None, std::format!("{:?}", self.state)),
+            State::PassiveIdle => ("PassiveIdle", None, std::format!("{:?}", self.state)),
+            State::ListenToken { .. } => ("ListenToken", None, std::format!("{:?}", self.state)),
+            State::ActiveIdle { .. } => ("ActiveIdle", None, std::format!("{:?}", self.state)),
+            State::UseToken {
+                data,
+                first_cycle_done,
+            } => (
+                "UseToken",
+                Some(data.token_time),
+                std::format!("UseToken({:?},{})", data.first_app, first_cycle_done),
+            ),
+            State::ClaimToken { .. } => ("ClaimToken", None, std::format!("{:?}", self.state)),
+            State::AwaitDataResponse { address, data } => (
+                "AwaitDataResponse",
+                Some(data.token_time),
+                std::format!("AwaitDataResponse({},{:?})", address, data.first_app),
+            ),
+            State::PassToken { .. } => ("PassToken", None, std::format!("{:?}", self.state)),
+            State::CheckTokenPass { .. } => {
+                ("CheckTokenPass", None, std::format!("{:?}", self.state))
+            }
+            State::AwaitStatusResponse { .. } => {
+                ("AwaitStatusResponse", None, std::format!("{:?}", self.state))
+            }
+        };
+        VerifFdlView {
+            state,
+            state_name,
+            have_token: self.state.have_token(),
+            token_time,
+            gap_state: std::format!("{:?}", self.gap_state),
+            connectivity_state: self.connectivity_state,
+            last_bus_activity: self.last_bus_activity,
+            pending_bytes: self.pending_bytes,
+            last_token_time: self.last_token_time,
+            end_token_hold_time: self.end_token_hold_time,
+            next_application: self.next_application,
         }
     }
 }
